@@ -117,7 +117,43 @@ fn both(j: JobDef) -> Vec<JobDef> {
     vec![r, d]
 }
 
+/// Development aid: `HX_ADHOC="world|family|profile|depth|armed,armed|flags" hx check ADHOC quick` runs one
+/// ad-hoc job through the worker pool (flags: noprune, split, congruence=N, wall=S). Not registered anywhere.
+fn adhoc_plan() -> Option<Plan> {
+    let spec = std::env::var("HX_ADHOC").ok()?;
+    let f: Vec<&str> = spec.split('|').collect();
+    let world: &'static str = Box::leak(f.first()?.to_string().into_boxed_str());
+    let profile: &'static str = if f.get(2) == Some(&"dbg") { "dbg" } else { "rel" };
+    let mut j = JobDef::new(world, f.get(1)?, profile, f.get(3)?.parse().ok()?);
+    j.armed = f.get(4).map(|a| a.split(',').filter_map(static_property).collect()).unwrap_or_default();
+    let mut wall = 3600;
+    for flag in f.get(5).map(|s| s.split(',').collect::<Vec<_>>()).unwrap_or_default() {
+        if flag == "noprune" {
+            j.prune = false;
+        } else if flag == "split" {
+            j.split_first = true;
+        } else if let Some(n) = flag.strip_prefix("congruence=") {
+            j.congruence_depth = n.parse().unwrap_or(0);
+        } else if let Some(n) = flag.strip_prefix("wall=") {
+            wall = n.parse().unwrap_or(3600);
+        }
+    }
+    let first: &'static str = j.armed.first().copied().unwrap_or("C01");
+    Some(Plan {
+        property: first,
+        level: "model_checking",
+        rule: "ad-hoc development run",
+        assumptions: vec![],
+        jobs: vec![j],
+        wall_s: wall,
+        distinct_counter: None,
+    })
+}
+
 pub fn plan(property: &str, tier: Tier) -> Option<Plan> {
+    if property == "ADHOC" {
+        return adhoc_plan();
+    }
     let q = tier == Tier::Quick;
     let g = |family: &str, profile: &'static str, depth: usize| JobDef::new("graph", family, profile, depth);
     let mc_rule = "bounded exhaustive exploration: every history over the family's alphabet up to the stated depth, from a fresh engine, pruned only on equal canonical digests of the product state (engine dump + reference model + harness); a state is non-trivial/distinct iff its digest is new";
